@@ -2,7 +2,9 @@
 
 proof gate (coq/Props/C11.v: MPO.__add__, dagger, plus_identity on the automaton model)
 + correspondence: W tensors of the implementation's MPOs (operands and results) are decomposed into operator names and
-  denoted by the verified `denote` inside Coq: denote(A + B) = denote A + denote B, dagger, plus_identity, to_TermList
+  denoted by the verified `denote` inside Coq: denote(A + B) = denote A + denote B, dagger, plus_identity, to_TermList;
+  make_U_I (stream c11_make_U_I): W grid / IdL / IdR / chi of H.make_U_I(dt) for Gaussian-integer dt against the graded
+  automaton model (Model/PropUI.v, checker Model/PropUICheck.v), exactly, inside Coq
 + oracle: every operation against the dense operators / vectors (independent numpy code).
 """
 import copy
@@ -303,6 +305,39 @@ def gen_propagator(rng, idx):
     imag = rng.random() < 0.5
     dts = [[0, -t0 / 2 ** n] if imag else [-t0 / 2 ** n, 0] for n in range(3)]
     return {'kind': 'propagator', 'site': {'type': 'SpinHalf', 'conserve': None}, 'L': L, 'A': {'terms': terms}, 'dts': dts}
+
+
+UI_DTS = [[1, 0], [2, 0], [-1, 0], [0, 1], [0, -1], [1, 1], [2, -1], [-1, 2], [3, 0], [0, 2], [0, 0]]
+
+
+def gen_ui(rng, idx):
+    """finite H with integer / Gaussian-integer strengths (term lists or explicit W grids with IdL/IdR markers, standard sum form
+    or not) and Gaussian-integer steps dt for the exact make_U_I correspondence"""
+    kind = rng.choice(['SpinHalf', 'SpinHalf', 'Fermion'])
+    L = rng.choice([1, 2, 3, 3, 4, 4, 5])
+    case = {'kind': 'ui', 'site': {'type': kind, 'conserve': None}, 'L': L, 'exact': True}
+    if rng.random() < 0.6:
+        conserve = rng.choice([None, 'Sz' if kind == 'SpinHalf' else 'N'])
+        if L == 1 and kind == 'Fermion':
+            conserve = 'N'
+        case['site']['conserve'] = conserve
+        if L == 1:
+            terms = [[[['Sz' if kind == 'SpinHalf' else 'N', 0]], cpx(rng, True)]]
+            if kind == 'SpinHalf' and conserve is None and rng.random() < 0.5:
+                terms.append([[['Sp', 0]], cpx(rng, True)])
+        else:
+            terms = gen_terms(rng, kind, L, conserve, True, rng.random() < 0.3, rng.randint(1, 4))
+        case['A'] = {'terms': terms, 'insert_all_id': rng.random() < 0.8}
+    else:
+        case['A'] = gen_grid(rng, kind, L, True, True, rng.random() < 0.6)
+    dts = rng.sample(UI_DTS[:-1], rng.choice([2, 3]))
+    if rng.random() < 0.08:
+        dts[-1] = UI_DTS[-1]
+    case['dts'] = dts
+    case['int_dt'] = rng.random() < 0.3
+    # half of the charge-free cases: virtual indices permuted, so that IdL / IdR sit anywhere on the bond (IdL > IdR occurs)
+    case['perm_seed'] = (7000 + idx) if (case['site']['conserve'] is None and rng.random() < 0.6) else None
+    return case
 
 
 # ------------------------------------------------------------------------------------------
@@ -681,24 +716,66 @@ def check_propagator(ctx, case, r):
             ctx.fail('oracle', text, label, match_key=key)
 
 
+def ui_rgrid(lit, g):
+    """raw W grid -> Coq literal of type rgrid (Model/PropUICheck.v)"""
+    return '[' + '; '.join('[' + '; '.join('(%s, %s, %s, %s)' % (z(int(a)), z(int(b)), z(lit.op(op)), lit.c(st)) for a, b, op, st in es) + ']'
+                           for es in g['edges']) + ']'
+
+
+def ui_literal(gH, gU, dt):
+    """(literal of type uicase, ok)"""
+    lit = Lit()
+    zl = lambda xs: '[' + '; '.join(z(int(x)) for x in xs) + ']'
+    if any(x is None for x in gH['IdL'] + gH['IdR'] + gU['IdL'] + gU['IdR']):
+        return None, False
+    s = '(mkUIC %s %s %s %s %s %s %s %s %s)' % (lit.c(dt), zl(gH['IdL']), zl(gH['IdR']), zl(gH['chi']), ui_rgrid(lit, gH),
+                                               zl(gU['IdL']), zl(gU['IdR']), zl(gU['chi']), ui_rgrid(lit, gU))
+    return s, lit.ok and gH['resid'] < 1e-9 and gU['resid'] < 1e-9
+
+
+def check_ui(ctx, case, r, coq):
+    label = {'stream': 'c11_make_U_I', 'case': case}
+    if 'runner_error' in r:
+        ctx.fail('correspondence', 'runner failed: ' + r['runner_error'][-500:], label)
+        return
+    gH = r['gridH']
+    if any(x is None for x in gH['IdL'] + gH['IdR']):
+        # documented precondition of make_U_I (asserted): IdL and IdR are known on every bond
+        ctx.count('c11_make_U_I_skipped', [case['A'], 'no markers'], nontrivial=False)
+        return
+    for nm, e in r['errors'].items():
+        ctx.fail('oracle', 'operation %s raised %s' % (nm, e), label, match_key='C11:make_U_I:raises')
+    if r['gridH_after'] != gH:
+        ctx.fail('oracle', 'make_U_I modified the W tensors / markers of H itself', label, match_key='C11:make_U_I:modifies-H')
+    for gU in r['U']:
+        s, ok = ui_literal(gH, gU, gU['dt'])
+        if ok:
+            coq['ui'].append((s, dict(case, dts=[gU['dt']])))
+        else:
+            ctx.count('c11_make_U_I_skipped', [case['A'], gU['dt']], nontrivial=False)
+
+
 def main(ctx):
     rng = ctx.rng
-    ctx.proof = common.check_proofs('C11')
+    ctx.proof = common.check_proofs('C11', extra_targets=['Model/PropUICheck.vo'])
     n_alg = ctx.pick(420, 4000)
     n_inf = ctx.pick(120, 1000)
     n_prop = ctx.pick(16, 120)
+    n_ui = ctx.pick(150, 700)
     if not ctx.proof.ok:
         n_alg = int(n_alg * 1.6)
+        n_ui = int(n_ui * 1.6)
     cases = [c['case'] for c in common.corpus_cases('C11')]
     if ctx.replay_in:
         import json
         replay = json.load(open(ctx.replay_in)).get('input') or {}
         if isinstance(replay.get('case'), dict):
             cases.append(replay['case'])
-            n_alg = n_inf = n_prop = 0
+            n_alg = n_inf = n_prop = n_ui = 0
     cases += [gen_algebra(rng, i) for i in range(n_alg)]
     cases += [gen_infinite(rng, i) for i in range(n_inf)]
     cases += [gen_propagator(rng, i) for i in range(n_prop)]
+    cases += [gen_ui(rng, i) for i in range(n_ui)]
     nchunk = common.NPROC
     order = list(range(len(cases)))
     chunks = [order[i::nchunk] for i in range(nchunk)]
@@ -710,7 +787,7 @@ def main(ctx):
             continue
         for i, x in zip(ch, r):
             results[i] = x
-    coq = {'add': [], 'dagger': [], 'plus_id': [], 'denote': []}
+    coq = {'add': [], 'dagger': [], 'plus_id': [], 'denote': [], 'ui': []}
     for case, r in zip(cases, results):
         if r is None:
             continue
@@ -719,6 +796,8 @@ def main(ctx):
                 check_algebra(ctx, case, r, coq)
             elif case['kind'] == 'infinite':
                 check_infinite(ctx, case, r)
+            elif case['kind'] == 'ui':
+                check_ui(ctx, case, r, coq)
             else:
                 check_propagator(ctx, case, r)
         except Exception:
@@ -734,12 +813,19 @@ def main(ctx):
                ('c11_totermlist', 'check_denote', coq['denote'], 'MPO.to_TermList differs from the denotation of the W tensors')]
     if 'check_plus_id' in model_src:
         streams.append(('c11_plus_id', 'check_plus_id', coq['plus_id'], 'denotation of plus_identity differs from alpha + beta * denote A / from the model'))
+    # make_U_I: raw W grid / IdL / IdR / chi of H and of H.make_U_I(dt) against ui_eval / ui_graph of Model/PropUI.v, inside Coq
+    ui_items = coq['ui'][:ctx.pick(300, 1500)]
+    streams.append(('c11_make_U_I', 'check_UI_grid', ui_items,
+                    'W grid / IdL / IdR / chi / operator of H.make_U_I(dt) differ from the model ui_eval dt (graph of H) / the graded automaton ui_graph'))
     total = 0
     for name, checker, items, what in streams:
         if not items:
             continue
         lits = [s for s, _ in items]
-        bad, err = common.coq_failing_indices(name, ['Base.Prelude', 'Model.Automaton'], checker, lits, shard=120)
+        imports = ['Base.Prelude', 'Model.Automaton']
+        if name == 'c11_make_U_I':
+            imports += ['Model.PropUI', 'Model.PropUICheck']
+        bad, err = common.coq_failing_indices(name, imports, checker, lits, shard=120 if name != 'c11_make_U_I' else 40)
         if err:
             ctx.fail('correspondence', 'model evaluation failed: ' + err[-600:], None)
         for b in bad[:5]:
@@ -752,7 +838,8 @@ def main(ctx):
         'C11 model: W entries are decomposed into an orthogonal basis of named operators (Id, Sp, Sm, Sz / Id, JW, C, Cd) with Gaussian-integer '
         'coefficients; operators are formal words over these names',
         'C11 oracle only (not modelled in Coq): expectation values, variance, overlap/distance, is_equal/is_hermitian, prefactor, apply* and '
-        'compression, infinite MPOs, transfer matrix, make_U_I/make_U_II (order of the error checked numerically by a slope test)',
+        'compression, infinite MPOs, transfer matrix, make_U_II and make_U_I at numeric steps (order of the error checked numerically by a '
+        'slope test); make_U_I is executed against the Coq model only for finite chains with exact strengths and Gaussian-integer steps',
     ]
     return ctx.finish(RULE, 'theorems of coq/Props/C11.v (sum, dagger, plus_identity on the automaton model); W tensors of operands and results '
                       'denoted inside Coq; every operation compared with dense operators / vectors')
@@ -761,4 +848,5 @@ def main(ctx):
 RULE = ('algebra: finite MPOs (L <= 5; spin-1/2, fermions; with/without charges) from random term lists (any operator order, several '
         'operators per site) or random W grids (standard form / dense, with / without IdL/IdR markers, max_range unknown) x pairs differing in one '
         'long-range term / coefficient / conjugation / nothing x random states x compression methods; infinite: iMPOs on a window and product iMPS; '
-        'propagator: make_U_I / make_U_II at dt, dt/2, dt/4; non-trivial when the operator is not zero.')
+        'propagator: make_U_I / make_U_II at dt, dt/2, dt/4; c11_make_U_I: finite H (L <= 5, term lists / explicit graphs in and out of '
+        'standard sum form, exact strengths, permuted virtual indices) x Gaussian-integer dt; non-trivial when the operator is not zero.')
